@@ -50,7 +50,7 @@ def main():
     if "--all-checks" in args:
         all_checks = True
         args.remove("--all-checks")
-    ids = args or sorted(x for x in os.listdir(VERIF + "/seeded") if os.path.isdir(f"{VERIF}/seeded/{x}"))
+    ids = args or sorted(x for x in os.listdir(VERIF + "/seeded") if os.path.isfile(f"{VERIF}/seeded/{x}/meta.json"))
     par = 4
     out_path = VERIF + "/seeded/RESULTS.json"
     results = json.load(open(out_path)) if os.path.exists(out_path) else {}
